@@ -1,6 +1,7 @@
 """C16 — stash / unstash (DESIGN §4 C16, A.7)."""
 import lm
 import rules
+import re
 from lm import S, strip, cval
 from props.common import Ctx, has, fmt_facts, check_guarded_entry, guard_retvals
 from props.containers import is_free_call
@@ -158,6 +159,12 @@ def run(ck, P):
         exit_blocks = [s for (bb, s, c, br) in exits if bb == b]
         fr = any(is_free_call(e) for sb in exit_blocks for e in us.blocks[sb].events)
         ck.ob("C16.2-TRIPCOUNT", us.site("iterator freed on break"), fr, "early exit releases the iterator: %s" % fr, nontrivial=False)
+    # an empty (or short) stash is an answer, not an error: the call reports how many events it moved, 0 included
+    refusals = [g for g in rules.bailouts(us) if any(re.search(r"->stashed\b", a_) for (a_, _p) in g.cont_atoms) and isinstance(g.retval, int) and g.retval < 0]
+    ck.ob("C16.2-TRIPCOUNT", us.site("an empty stash is not an error"), not refusals,
+          "no refusal of m_mod_unstash depends on what the stash holds" if not refusals else
+          "m_mod_unstash returns %d unless %s: with fewer stashed events than that the call fails instead of reporting the number moved (0 for an "
+          "empty stash)" % (refusals[0].retval, sorted(refusals[0].cont_atoms)))
     itn = [e for e in us.events() if e.kind == "decl" and e.rhs is not None and strip(e.rhs).get("callee") == "m_queue_itr_new"]
     ck.ob("C16.2-TRIPCOUNT", us.site("oldest first"), bool(itn) and S(strip(itn[0].rhs)["args"][0]) == "mod->stashed" and us.ev_dominates(itn[0], mv),
           "iteration starts at the head of mod->stashed", nontrivial=False)
